@@ -20,7 +20,7 @@ import (
 // optionalFields: pointer-typed fields that a *successful* external parse can
 // leave nil (derived by reading the parsers).
 var optionalFields = map[string]string{
-	"crypto/x509.RevocationList.Number":          "set only when the cRLNumber extension is present",
+	"crypto/x509.RevocationList.Number":             "set only when the cRLNumber extension is present",
 	"golang.org/x/crypto/ocsp.Response.Certificate": "nil unless the responder embedded a certificate",
 }
 
@@ -53,9 +53,9 @@ type siteScan struct {
 
 type derefOb struct {
 	rule, name, where, fn string
-	ok                bool
-	detail            []string
-	contexts          int
+	ok                    bool
+	detail                []string
+	contexts              int
 }
 
 func censusSites(c *Check) *siteScan {
@@ -311,7 +311,9 @@ func nonEmptyLP(t *Term, k int64) (lp LP, always bool, can bool) {
 	return AnyOf(alts...), false, true
 }
 
-func isBin(t *Term, op string) bool { return t != nil && t.Op == "bin" && t.Name == op && len(t.Args) == 2 }
+func isBin(t *Term, op string) bool {
+	return t != nil && t.Op == "bin" && t.Name == op && len(t.Args) == 2
+}
 
 // lastOf: t == len(X)-1; returns X.
 func lastOf(t *Term) *Term {
@@ -599,10 +601,11 @@ func jsonFieldKind(c *Check, pkgSuffix, name string) (kind string, omitempty boo
 	return
 }
 
-
 // counterLoopBound: obj is the counter of a classic for loop
-//   for i := C; i < len(Y); i++   (C a non-negative constant)   or
-//   for i := len(Y)-1; i >= 0; i--
+//
+//	for i := C; i < len(Y); i++   (C a non-negative constant)   or
+//	for i := len(Y)-1; i >= 0; i--
+//
 // whose body assigns neither i nor the root of Y; returns Y.
 func (p *Prog) counterLoopBound(obj types.Object) ast.Expr {
 	if obj == nil {
